@@ -70,6 +70,17 @@ Definition model_snaplist (r : snaplist_in) : obs :=
       OSnapList (ct_eqb (c_type cp) (c_type c)) c1 c2 og
   end.
 
+Definition model_readerlist (buffer : bool) (r : snaplist_in) : obs :=
+  let wa := {| w_data := []; w_pos := 0; w_reads := 0; w_heap := [sl_buf r] |} in
+  match content_from_reader (if sl_tuple r then Stored (sl_buf r) else InList 0) None buffer wa with
+  | (Raised e, _) => OReaderList (Raised e) (Raised e)          (* cannot happen *)
+  | (Ok c, wb) =>
+      let wc := mutate wb 0 (apply_ops (sl_ops r) (sl_buf r)) in
+      let (i1, wd) := iter_bytes c wc in
+      let (i2, _) := iter_bytes c wd in
+      OReaderList i1 i2
+  end.
+
 Definition model (i : input) : obs :=
   match i with
   | IText s =>
@@ -87,6 +98,7 @@ Definition model (i : input) : obs :=
   | IReader r => model_reader r
   | ISnap r => model_snap r
   | ISnapList r => model_snaplist r
+  | IReaderList b r => model_readerlist b r
   | IEq ta ca tb cb =>
       let a := {| c_type := ta; c_src := Stored ca |} in
       let b := {| c_type := tb; c_src := Stored cb |} in
@@ -126,6 +138,7 @@ Definition obs_eqb (a b : obs) : bool :=
       && Bool.eqb a1 a2 && bres_eqb g1 g2
   | OSnapList s1 i1 j1 g1, OSnapList s2 i2 j2 g2 =>
       Bool.eqb s1 s2 && bres_eqb i1 i2 && bres_eqb j1 j2 && bres_eqb g1 g2
+  | OReaderList i1 j1, OReaderList i2 j2 => bres_eqb i1 i2 && bres_eqb j1 j2
   | OEq e1 n1, OEq e2 n2 => Bool.eqb e1 e2 && Bool.eqb n1 n2
   | OMime c1 r1, OMime c2 r2 => ctype_eqb c1 c2 && Bool.eqb (survives c1 r1) (survives c2 r2)
   | _, _ => false
@@ -145,6 +158,7 @@ Inductive aobs :=
 | AReader (created : option exn) (rc : bool) (it1 : ab) (r1 : bool) (it2 : ab) (r2 : bool)
 | ASnap (copied : option exn) (same : bool) (c1 c2 : ab) (ra : bool) (orig : ab)
 | ASnapList (same : bool) (c1 c2 orig : ab)
+| AReaderList (it1 it2 : ab)
 | AEq (eq ne : bool)
 | AMime (echo : ctype) (survived : bool).
 
@@ -157,6 +171,7 @@ Definition alpha (o : obs) : aobs :=
   | OReader c a i x j y => AReader c a (alpha_b i) x (alpha_b j) y
   | OSnap c s i j a g => ASnap c s (alpha_b i) (alpha_b j) a (alpha_b g)
   | OSnapList s i j g => ASnapList s (alpha_b i) (alpha_b j) (alpha_b g)
+  | OReaderList i j => AReaderList (alpha_b i) (alpha_b j)
   | OEq e n => AEq e n
   | OMime c r => AMime c (survives c r)
   end.
